@@ -202,6 +202,12 @@ func classify(m *chainsm.Machine) (string, bool) {
 	if m.ReminedReorgs > 0 {
 		vk.Class("also/reorg-mines-disconnected-tx-again")
 	}
+	if len(m.Wide) > 0 {
+		vk.Class("also/tx-with-more-than-256-outputs")
+	}
+	if m.WideSpent > 0 {
+		vk.Class("also/spends-around-output-index-256")
+	}
 	if m.MaxReorgDepth >= 3 {
 		vk.Class("also/reorg-depth>=3")
 	}
